@@ -47,7 +47,11 @@ FIDS = {1: "C18-K1-update-during-load", 2: "C18-K2-unload-during-load", 4: "C18-
 
 
 # ---------------------------------------------------------------- translator
-def generate():
+def generate(coqdir=None):
+    # the flags record of the Coq development in use (7 fields since the busy guard)
+    coqdir = coqdir or os.path.join(VERIF, "coq", "C18")
+    seven = "fl_busy_guard" in open(os.path.join(coqdir, "Model.v")).read()     # 9-field flags record
+
     def work():
         m = astlib.module("klongpy/db/file_cache.py")
         cls = astlib.find_class(m, "FileCache")
@@ -68,6 +72,16 @@ def generate():
                         raise ShapeError("entry is not a 3-tuple")
                     out.append(n.value)
             return out
+
+        def is_log(n):
+            if not (isinstance(n, ast.Expr) and isinstance(n.value, ast.Call)):
+                return False
+            s_ = ast.unparse(n.value.func)
+            return s_ == "tinfo" or s_.startswith("logging.")
+
+        def srcs(stmts):
+            """source of the statements, log calls dropped"""
+            return [ast.unparse(n) for n in stmts if not is_log(n)]
 
         def one(l, what):
             if len(l) != 1:
@@ -118,14 +132,26 @@ def generate():
         if not any("os.path.exists" in s for s in gsrc) or not any("os.path.getsize" in s for s in gsrc):
             raise ShapeError("get_file exists/getsize")
 
-        # update_file
+        # update_file (with or without the busy guard)
+        def norm(src):
+            return ast.unparse(ast.parse(src, mode="eval").body)
         u = astlib.find_func(cls, "update_file")
         ub = one(lock_blocks(u), "update_file lock block")
-        uif = one([n for n in ub.body if isinstance(n, ast.If)], "update_file if")
+        top = one([n for n in ub.body if isinstance(n, ast.If)], "update_file if")
+        if ast.unparse(top.test) == norm("info is not None and not info[0] and not info[-1].done()"):
+            if srcs(top.body) != ["future = info[-1]", "write_applied = None"]:
+                raise ShapeError("update_file busy branch")
+            uif = one([n for n in top.orelse if isinstance(n, ast.If)], "update_file elif")
+            if len(top.orelse) != 1:
+                raise ShapeError("update_file: statements beside the elif")
+            upd_guard = True
+        else:
+            uif = top
+            upd_guard = False
         if ast.unparse(uif.test) != "info is None or not info[0]":
             raise ShapeError("update_file test: %s" % ast.unparse(uif.test))
         body = ast.Module(body=uif.body, type_ignores=[])
-        if not (uif.body and ast.unparse(uif.body[0]) == "self._unload_file(file_name)"):
+        if not (uif.body and srcs(uif.body)[0] == "self._unload_file(file_name)"):
             raise ShapeError("update_file: first statement of the writer branch is not _unload_file")
         one(astlib.calls_in(body, "submit"), "update_file submit")
         t = one(entry_tuples(body), "update_file entry")
@@ -140,30 +166,44 @@ def generate():
         second = applied(uif.orelse)
         if not any(ast.unparse(n) == "future = info[-1]" for n in uif.orelse):
             raise ShapeError("update_file second-writer future")
-        tail = [ast.unparse(n) for n in u.body[-2:]]
-        if tail != ["future.result()", "return write_applied"]:
-            raise ShapeError("update_file tail: %r" % tail)
+        after = srcs(u.body[u.body.index(ub) + 1:])
+        want_after = ["future.result()", "return write_applied"]
+        if upd_guard:
+            want_after = ["if write_applied is None:\n    future.exception()\n    return self.update_file(file_name, new_file_contents, use_fsync)"] + want_after
+        if after != want_after:
+            raise ShapeError("update_file tail: %r" % after)
 
         # update_file_futures_and_memory
         f = astlib.find_func(cls, "update_file_futures_and_memory")
         fb = one(lock_blocks(f), "ufm lock block")
         if len(astlib.body_no_doc(f)) != 1:
             raise ShapeError("ufm: statements outside the lock block")
-        fsrc = [ast.unparse(n) for n in fb.body]
-        if not fsrc[0].startswith("can_cache = self.recover_memory(memory_usage)"):
+        fsrc = srcs(fb.body)
+        if fsrc[0] == "can_cache = self.recover_memory(memory_usage)":
+            oversize = False
+        elif fsrc[0] == "can_cache = memory_usage <= self.max_memory and self.recover_memory(memory_usage)":
+            oversize = True
+        else:
             raise ShapeError("ufm first statement")
         if "assert info is not None" not in fsrc:
             raise ShapeError("ufm assert")
         fif = [n for n in fb.body if isinstance(n, ast.If) and ast.unparse(n.test) == "can_cache"]
         fif = one(fif, "ufm if can_cache")
-        bs = [ast.unparse(n) for n in fif.body]
+        bs = srcs(fif.body)
         t = one(entry_tuples(ast.Module(body=fif.body, type_ignores=[])), "ufm entry")
         done_w = boolconst(t.elts[0], "ufm entry flag")
         if ast.unparse(t.elts[1]) != "memory_usage" or ast.unparse(t.elts[2]) != "info[-1]":
             raise ShapeError("ufm entry fields")
         if "self.update_file_access_time(file_name)" not in bs or "self.current_memory_usage += memory_usage" not in bs:
             raise ShapeError("ufm cache branch")
-        if [ast.unparse(n) for n in fif.orelse] != ["del self.file_futures[file_name]"]:
+        es = srcs(fif.orelse)
+        if es == ["del self.file_futures[file_name]"]:
+            else_heap = False
+        elif es == ["del self.file_futures[file_name]",
+                    "self.file_access_times = [(t, fn) for t, fn in self.file_access_times if fn != file_name]",
+                    "heapq.heapify(self.file_access_times)"]:
+            else_heap = True
+        else:
             raise ShapeError("ufm else branch")
 
         # _unload_file, unload_file
@@ -174,9 +214,20 @@ def generate():
             raise ShapeError("_unload_file shape")
         ul = astlib.find_func(cls, "unload_file")
         lb = one(lock_blocks(ul), "unload_file lock block")
-        ls = [ast.unparse(n) for n in lb.body]
-        if ls[-1] != "self._unload_file(file_name)" or len(astlib.body_no_doc(ul)) != 1:
+        ls = srcs(lb.body)
+        if ls[-1] != "self._unload_file(file_name)" or len(srcs(astlib.body_no_doc(ul))) != 1:
             raise ShapeError("unload_file shape")
+        if len(ls) == 3:
+            unl_guard = False
+        elif len(ls) == 5 and ls[0] == "info = self.file_futures.get(file_name)" and \
+                ls[1] == "if " + norm("info is not None and not info[-1].done()") + ":\n    return":
+            unl_guard = True
+        else:
+            raise ShapeError("unload_file lock block: %r" % ls)
+        if not (ls[-3].startswith("self.file_access_times = ") and ls[-2] == "heapq.heapify(self.file_access_times)"):
+            raise ShapeError("unload_file heap statements")
+        if upd_guard != unl_guard:
+            raise ShapeError("busy guard present in only one of update_file / unload_file")
 
         # _load_file / _write_file: fs calls outside the lock, ufm last
         for nm, mode in (("_load_file", "'rb'"), ("_write_file", "'wb'")):
@@ -189,20 +240,22 @@ def generate():
             st = [ast.unparse(n) for n in astlib.body_no_doc(fn)]
             if not st[-2].startswith("self.update_file_futures_and_memory(file_name, memory_usage=memory_usage)") or st[-1] != "return contents":
                 raise ShapeError(nm + " tail")
-        return dict(get_w=get_w, upd_w=upd_w, done_w=done_w, first=first, second=second, touch=touch_if_done, dmax=default_max)
+        return dict(get_w=get_w, upd_w=upd_w, done_w=done_w, first=first, second=second, touch=touch_if_done, dmax=default_max,
+                    guard=upd_guard, oversize=oversize, else_heap=else_heap)
 
     r, why = astlib.try_flag(work)
     out = ["From Coq Require Import ZArith.", "From C18 Require Import Model."]
     b = astlib.coq_bool
     if r is None:
         out.append("(* shape not recognised: %s *)" % why)
-        out.append("Definition gen_flags : flags := mkFlags false true false true false true.")
+        out.append("Definition gen_flags : flags := mkFlags false true false true false true%s." % (" false false false" if seven else ""))
         out.append("Definition shape_ok : bool := false.")
         out.append("Definition default_max_memory : Z := 0%Z.")
     else:
-        out.append("Definition gen_flags : flags := mkFlags %s %s %s %s %s %s." % (
-            b(r["get_w"]), b(r["upd_w"]), b(r["done_w"]), b(r["first"]), b(r["second"]), b(r["touch"])))
-        out.append("Definition shape_ok : bool := true.")
+        out.append("Definition gen_flags : flags := mkFlags %s %s %s %s %s %s%s." % (
+            b(r["get_w"]), b(r["upd_w"]), b(r["done_w"]), b(r["first"]), b(r["second"]), b(r["touch"]),
+            (" %s %s %s" % (b(r["oversize"]), b(r["else_heap"]), b(r["guard"]))) if seven else ""))
+        out.append("Definition shape_ok : bool := %s." % b(seven or not (r["guard"] or r["oversize"] or r["else_heap"])))
         out.append("Definition default_max_memory : Z := %d%%Z." % r["dmax"])
     return "\n".join(out) + "\n"
 
@@ -513,9 +566,53 @@ def canon_result(v):
     return ["other", type(v).__name__]
 
 
+def rows_df(rows):
+    import pandas as pd
+    idx = sorted(rows)
+    return pd.DataFrame({"v": [rows[i] for i in idx]}, index=idx)
+
+
+def df_rows(df):
+    return [[int(i), int(v)] for i, v in zip(df.index, df["v"])] if len(df) else []
+
+
+def ser_rows(rows):
+    from klongpy.db.helpers import serialize_df
+    return serialize_df(rows_df(rows))
+
+
+class FlockShim(FakeLock):
+    """the per-file append lock of PandasDataFrameCache.update (threading.Lock() in df_cache)"""
+
+    def __init__(self):
+        self.held = False
+        self.owner = None
+
+    def __enter__(self):
+        FakeLock.__enter__(self)
+        self.owner = SCHED.local.ctl.tid
+        return self
+
+    def __exit__(self, *a):
+        self.owner = None
+        return FakeLock.__exit__(self, *a)
+
+
+class ThreadingShim:
+    Lock = FlockShim
+
+    def __getattr__(self, name):
+        return getattr(threading, name)
+
+
 class Runner:
-    def __init__(self, workdir):
+    def __init__(self, workdir, df=False):
         self.fcm = patch_module()
+        self.df = df
+        if df:
+            import klongpy.db.df_cache as dfm
+            dfm.threading = ThreadingShim()
+            self.dfm = dfm
         self.workdir = workdir
         self.runs = 0
 
@@ -555,7 +652,10 @@ class Runner:
         s = Sched()
         SCHED = s
         s.n_clients = len(progs)
-        fc = self.fcm.FileCache(max_memory=mx, root_path=self.workdir)
+        if self.df:
+            fc = self.dfm.PandasDataFrameCache(max_memory=mx, root_path=self.workdir)
+        else:
+            fc = self.fcm.FileCache(max_memory=mx, root_path=self.workdir)
         self.runs += 1
 
         def client_body(tid, prog):
@@ -569,6 +669,12 @@ class Runner:
                                 res = ["other", res]
                         elif o[0] == "upd":
                             res = canon_result(fc.update_file(FNAMES[o[1]], bytes(o[2])))
+                        elif o[0] == "dfupd":
+                            res = ["rows", df_rows(fc.update(FNAMES[o[1]], rows_df(o[2])))]
+                        elif o[0] == "dfget":
+                            res = ["rows", df_rows(fc.get_dataframe(FNAMES[o[1]]))]
+                        elif o[0] == "rawupd":
+                            res = canon_result(fc.update_file(FNAMES[o[1]], ser_rows(o[2])))
                         else:
                             res = canon_result(fc.unload_file(FNAMES[o[1]]))
                     except _Abort:
@@ -609,6 +715,9 @@ class Runner:
                     break
             out["enabled_end"] = s.enabled()
             out["finished"] = all(c.finished for c in s.ctls.values())
+            # a thread parked on an append lock that it holds itself (PandasDataFrameCache.update retry)
+            out["self_deadlock"] = any((not c.finished) and c.at == "lock" and isinstance(c.obj, FlockShim) and c.obj.held
+                                       and getattr(c.obj, "owner", None) == c.tid for c in s.ctls.values())
             out["history"] = list(s.history)
             out["final"] = self.snapshot(fc, s, nfiles)
             out["kinds"] = list(s.kinds)
@@ -756,7 +865,7 @@ def plan(chk, rng):
     A = [(0, CA)]
     AB = [(0, CA), (1, CB)]
     q = tier == "quick"
-    lim = 300 if q else 800
+    lim = 300 if q else 400
     out = [
         # 2 threads x 1 op, same file: every schedule
         ("get||upd", (BIG, A, [[g(0)], [u(0, U1)]]), None, None),
@@ -779,7 +888,7 @@ def plan(chk, rng):
         ("getA;updA||getB-evict", (6, AB, [[g(0), u(0, U1)], [g(1)]]), 2 if q else None, lim),
         # 3 threads x 1 op
         ("upd||upd||get", (BIG, A, [[u(0, U1)], [u(0, U2)], [g(0)]]), 1 if q else 2, lim),
-        ("get||upd||unl", (BIG, A, [[g(0)], [u(0, U1)], [x(0)]]), 1 if q else 2, 200 if q else 800),
+        ("get||upd||unl", (BIG, A, [[g(0)], [u(0, U1)], [x(0)]]), 1 if q else 2, 200 if q else 400),
         ("getA||getA||getB-evict", (6, AB, [[g(0)], [g(0)], [g(1)]]), 1 if q else 2, lim),
     ]
     # the universes of the theorems (as the extracted model lists them)
@@ -792,17 +901,17 @@ def plan(chk, rng):
     else:
         for c in uni[0]:
             cfg = cfg_from_model(c[0])
-            out.append(("U21:" + cfg_name(cfg), cfg, None, 60))
+            out.append(("U21:" + cfg_name(cfg), cfg, None, 25))
         for nm, U in (("U22", uni[1]), ("U31", uni[2]), ("U2112", uni[3]), ("U31e", uni[4])):
             for c in U:
                 cfg = cfg_from_model(c[0])
-                out.append(("%s:%s" % (nm, cfg_name(cfg)), cfg, 2, 40))
+                out.append(("%s:%s" % (nm, cfg_name(cfg)), cfg, 2, 25))
         # beyond the theorems: 2x2 on two files, 3 threads x 2 ops (sampled, preemption bound 2)
         out += [
-            ("updA;getB||updB;getA", (BIG, AB, [[u(0, U1), g(1)], [u(1, U2), g(0)]]), 2, 1000),
-            ("getA;getB||getB;getA-evict", (6, AB, [[g(0), g(1)], [g(1), g(0)]]), 2, 1000),
-            ("upd;get||upd;get||upd;get", (BIG, A, [[u(0, U1), g(0)], [u(0, U2), g(0)], [u(0, U3), g(0)]]), 2, 1000),
-            ("upd;unl||get;get||upd;get", (BIG, A, [[u(0, U1), x(0)], [g(0), g(0)], [u(0, U2), g(0)]]), 2, 1000),
+            ("updA;getB||updB;getA", (BIG, AB, [[u(0, U1), g(1)], [u(1, U2), g(0)]]), 2, 300),
+            ("getA;getB||getB;getA-evict", (6, AB, [[g(0), g(1)], [g(1), g(0)]]), 2, 300),
+            ("upd;get||upd;get||upd;get", (BIG, A, [[u(0, U1), g(0)], [u(0, U2), g(0)], [u(0, U3), g(0)]]), 2, 300),
+            ("upd;unl||get;get||upd;get", (BIG, A, [[u(0, U1), x(0)], [g(0), g(0)], [u(0, U2), g(0)]]), 2, 300),
         ]
     return out
 
@@ -816,7 +925,8 @@ def replay(path):
         print(json.dumps(body, indent=1))
         return 0
     chk = Check("C18", "quick")
-    chk.generate(generate())
+    _dev(chk)
+    chk.generate(generate(chk.dir))
     chk.build_model()
     cfg = cfg_from_model(rep["cfg"])
     work = os.path.join(VERIF, ".work", "C18-%d" % os.getpid())
@@ -842,10 +952,109 @@ def replay(path):
     return 0
 
 
+def _dev(chk):
+    """C18_DEV_DIR=<dir>: use a scratch copy of the Coq development (builder's own testing only)"""
+    d = os.environ.get("C18_DEV_DIR")
+    if d:
+        chk.dir = d
+        chk.model_bin = os.path.join(d, "_run", "run_model")
+
+
+# ---------------------------------------------------------------- PandasDataFrameCache.update (df_cache.py)
+def df_explore(chk, work, rng, deadline):
+    """PandasDataFrameCache.update = per-file append lock + get_file + merge + update_file (+ retry).  It is NOT in the
+    Coq model; its real code is run under the same scheduler (the append lock is a scheduler lock) and judged by the
+    property's oracle for a read-modify-write register: every call returns, no update is lost (the file ends as the
+    union of the initial rows and all updates), every returned frame lies between the initial rows and the final
+    ones and contains the caller's own rows, and disk / cache / accounting agree at the end."""
+    runner = Runner(work, df=True)
+    init = {0: 0}
+    a, b = {1: 10}, {2: 20, 0: 99}          # b overlaps the initial row 0: keep='first' must keep the older value
+    on_disk = [(0, list(ser_rows(init)))]
+    plans = [
+        ("df:upd||upd", (BIG, on_disk, [[("dfupd", 0, a)], [("dfupd", 0, b)]])),
+        ("df:upd||upd-new", (BIG, [], [[("dfupd", 0, a)], [("dfupd", 0, {2: 20})]])),
+        ("df:upd||get", (BIG, on_disk, [[("dfupd", 0, a)], [("dfget", 0)]])),
+        ("df:upd;get||upd", (BIG, on_disk, [[("dfupd", 0, a), ("dfget", 0)], [("dfupd", 0, b)]])),
+    ]
+    # a direct update_file racing with update(): update_file may report False to update(), whose retry is inside
+    # `with flock` (known finding C18-K4 while df_cache.py keeps that shape)
+    plans.append(("df:upd||rawupd", (BIG, on_disk, [[("dfupd", 0, a)], [("rawupd", 0, {5: 50})]])))
+    lim = 60 if chk.tier == "quick" else 600
+    k4_witness = [0, 0, 0, 0, 0, 1, 2, 2, 2, 2, 0, 1, 1, 0, 3, 3, 3, 3, 0, 0, 1]
+    bad = []
+    for name, cfg in plans:
+        runs, complete = enumerate_schedules(runner, cfg, bound=2, limit=lim, rng=rng, deadline=deadline)
+        if name == "df:upd||rawupd":
+            w = runner.run(cfg, k4_witness, policy="stop")
+            if not w["error"] and w.get("self_deadlock"):     # still the known behaviour; otherwise the sample decides
+                runs.insert(0, w)
+        have = {f: True for f, _ in cfg[1]}
+        start = dict(init) if have else {}
+        updates = [o[2] for p in cfg[2] for o in p if o[0] == "dfupd"]
+        final_keys = set(start)
+        for u_ in updates:
+            final_keys |= set(u_)
+        for r in runs:
+            chk.count("df_update_schedules")
+            chk.count("evaluations")
+            fails = []
+            if r["error"]:
+                fails.append("scheduler error: " + r["error"])
+            elif not r["finished"]:
+                if name == "df:upd||rawupd" and r.get("self_deadlock"):
+                    chk.count("df_retry_self_deadlocks")
+                    chk.finding("C18-K4-df-update-retry-deadlock", "PandasDataFrameCache.update deadlocks on its own append lock",
+                                {"config": name, "schedule": [t for _, t, _ in r["trace"]]})
+                    continue
+                fails.append("deadlock: a call never returns")
+            elif name == "df:upd||rawupd":
+                chk.count("df_update_ok")          # the raw writer replaces the file: only termination is judged here
+                continue
+            else:
+                from klongpy.db.helpers import deserialize_df
+                disk = {f: bytes(c) for f, c in r["final"]["disk"]}
+                try:
+                    rows = dict(df_rows(deserialize_df(disk[0])))
+                except Exception as e:      # noqa
+                    rows = None
+                    fails.append("file on disk does not deserialise: %s" % type(e).__name__)
+                if rows is not None:
+                    if set(rows) != final_keys:
+                        fails.append("lost update: final rows %r, expected keys %r" % (rows, sorted(final_keys)))
+                    for k_, v_ in start.items():
+                        if rows.get(k_) != v_:
+                            fails.append("an existing row was overwritten: %r" % rows)
+                for e in r["history"]:
+                    if e[0] == "ret":
+                        res = e[3]
+                        if res[0] != "rows":
+                            fails.append("call raised/returned %r" % (res,))
+                            continue
+                        got = dict(res[1])
+                        if not (set(start) <= set(got) <= final_keys):
+                            fails.append("returned frame %r outside [initial, final]" % got)
+                        op = cfg[2][e[1]][e[2]]
+                        if op[0] == "dfupd" and not set(op[2]) <= set(got):
+                            fails.append("update returned a frame without its own rows: %r" % got)
+                fin = r["final"]
+                total = sum(x[2] for x in fin["futs"])
+                if fin["mem"] != total or any(x[1] for x in fin["futs"]) or sorted(fin["heap"]) != sorted(x[0] for x in fin["futs"]):
+                    fails.append("accounting / cache state disagrees at the end: %r" % fin)
+            if fails:
+                bad.append({"config": name, "cfg": repr(cfg)[:400], "schedule": [t for _, t, _ in r["trace"]], "fails": fails[:3],
+                            "history": repr(r.get("history"))[:600]})
+            elif len(r["history"]) >= 4:
+                chk.count("df_update_ok")
+        chk.counters.setdefault("per_config", {})[name] = [len(runs), "bound 2" if complete else "sampled %d" % lim]
+    return bad
+
+
 def run(tier, replay=None):
     chk = Check("C18", tier)
+    _dev(chk)
     rng = random.Random(chk.seed)
-    chk.generate(generate())
+    chk.generate(generate(chk.dir))
     chk.build_model()
     hits = forbidden_scan("C18")
     proof = chk.build_proofs()
@@ -921,7 +1130,13 @@ def _run(chk, rng, proof, work):
                         "linearizable": lin, "agree": bool(r.get("final")) and impl_agree(r["final"])}, limit=5)
 
     # step 2: the witnesses of the _refuted theorems, replayed on the real cache
-    wit = chk.run_model(["(witness k1torn)", "(witness k1acct)", "(witness k2)", "(witness k3)"])
+    # (they are stated for the code without the busy guard; once update_file / unload_file have it they no longer apply)
+    import re
+    mf = re.search(r"gen_flags : flags := mkFlags ((?:\w+ ?)+)\.", chk.generated_text)
+    fl = mf.group(1).split() if mf else []
+    guard = len(fl) == 9 and fl[8] == "true"
+    chk.counters["busy_guard_in_source"] = guard
+    wit = [] if guard else chk.run_model(["(witness k1torn)", "(witness k1acct)", "(witness k2)", "(witness k3)"])
     for wname, w in zip(["k1torn", "k1acct", "k2", "k3"], wit):
         cfg = cfg_from_model(w[1])
         r = runner.run(cfg, list(w[2]), policy="stop")
@@ -931,11 +1146,13 @@ def _run(chk, rng, proof, work):
     # step 3: every schedule of the configurations, enumerated on the real cache
     # time budget of the enumeration (coverage only, never the verdict): when it is used up the remaining
     # configurations (the sampled universes come last) get one schedule each and are listed in the evidence
-    deadline = chk.t0 + (210 if tier == "quick" else 450)
+    deadline = max(chk.t0 + (210 if tier == "quick" else 600), time.time() + (90 if tier == "quick" else 300))
     for name, cfg, bound, limit in plan(chk, rng):
         if time.time() > deadline:
             limit = 1
-            chk.counters.setdefault("cut_by_time_budget", []).append(name)
+            chk.count("cut_by_time_budget")
+            if len(chk.counters.setdefault("cut_by_time_budget_first", [])) < 12:
+                chk.counters["cut_by_time_budget_first"].append(name)
         runs, complete = enumerate_schedules(runner, cfg, bound=bound, limit=limit, rng=rng, deadline=deadline if limit != 1 else None)
         chk.count("configurations")
         if complete and bound is None:
@@ -947,6 +1164,8 @@ def _run(chk, rng, proof, work):
         judge(name, cfg, runs, "enumerated")
         chk.counters.setdefault("per_config", {})[name] = [len(runs), "all" if (complete and bound is None) else ("bound %s" % bound if complete else "sampled %s" % limit)]
 
+    for rep in df_explore(chk, work, rng, deadline)[:2]:
+        chk.violation("PandasDataFrameCache.update: " + "; ".join(rep["fails"]) + " (config %s)" % rep["config"], rep)
     for fid, reps in known_hits.items():
         chk.finding(fid, "a client unloaded an in-flight cache entry: %s" % "; ".join(reps[0]["fails"]), reps[0])
         chk.counters["known_" + fid] = len(reps)
